@@ -39,6 +39,7 @@ package conf
 //@   ghost at entry: ee = false
 //@   ghost at before ExpandEnv#0: ee = true
 //@   call ExpandEnv#0: assert opt.env
+//@   call ExpandEnv#0: assert len(opts) > 0
 //@   call loader#0: assert opt.env && ee && arg1 == v
 //@   call loader#1: assert !opt.env && sameSlice(arg0, content) && arg1 == v
-//@   loop 0: invariant true
+//@   loop 0: invariant implies(len(opts) == 0, !opt.env)
